@@ -269,6 +269,12 @@ func (r *RunResult) finishPath(it *Interp, why string, ex *Explorer) {
 	}
 	for race := range it.sch.races {
 		v := &Violation{Kind: "race", Label: race, Decisions: ex.decisions(), Run: r.Cfg.Name, Entry: r.Cfg.Entry}
+		if lb := ex.labels(); len(lb) >= len(v.Decisions) {
+			v.DecLabels = lb[:len(v.Decisions)]
+		}
+		for _, tr := range it.sch.trace {
+			v.Trace = append(v.Trace, fmt.Sprintf("g%d %s %s %s %s", tr.tid, tr.tname, tr.op.kind, tr.op.obj, tr.op.pos))
+		}
 		r.addViol(v)
 	}
 	end := why
